@@ -18,7 +18,7 @@ from .world import World, resolve
 
 
 USER_ACTIONS = ("update", "scribble", "new_coords", "new_shell", "new_container", "write_file", "new_mole", "new_iodata",
-                "new_instance")
+                "new_instance", "copy_shell")
 EVENT_BUDGET = 600000  # traced line events per run after which faults are no longer placed (deterministic)
 
 
@@ -282,6 +282,33 @@ class Run:
         if bound.kind == "W" and op["op"] == "update" and (op.get("fault") or op.get("env")) \
                 and getattr(bound, "mutate", None) is not None:
             return self._faulted_update(bound, op, zr, entry)
+        if bound.kind == "W" and op["op"] == "update" and getattr(bound, "mutate", None) is not None:
+            # the user's parameter change, then the renormalisation with the other shells watched
+            class _B:
+                pass
+
+            m = _B()
+            m.call = bound.mutate
+            mo, _, mch, _ = self._call(m, None)
+            if mo[0] == "raise":
+                self._o2(bound, mo, zr, "parameter update")
+                entry["out"] = outcome_digest(mo)
+                entry["cls"] = outcome_class(mo)
+                return entry
+            bystanders = self._bystanders(bound.touched)
+            r = _B()
+            r.call = bound.renorm
+            out, value, changed, _ = self._call(r, None)
+            entry["out"] = outcome_digest(out)
+            entry["cls"] = outcome_class(out)
+            if changed:
+                raise Violation(["C19"], "O1-ambient", "assign_norm_cont", "renormalisation changed error state: " + changed)
+            self._check_bystanders(bystanders, "renormalisation")
+            self._o2(bound, out, zr, "parameter update + renormalisation")
+            if out[0] == "ok":
+                self._o4(bound.touched, bound.label)
+                self._o6_twin(bound.touched, bound.label, op)
+            return entry
         if bound.kind == "W":
             pre_args = snap(tuple(bound.args))
             out, value, changed, _ = self._call(bound, None)
@@ -466,6 +493,28 @@ class Run:
                                 f"{_short(h[1])} -> {_short(now)}")
         self.world.scribbled = []
 
+    def _bystanders(self, touched):
+        """Shells of the pool that the update does not concern (share neither exponents nor coefficients with
+        the updated arrays), with their snapshots: renormalising the touched shells must leave them alone."""
+        from .canon import shell_snap
+
+        tid = {id(s) for s in touched}
+        out = []
+        for e in self.world.shells:
+            if id(e.obj) not in tid:
+                out.append((e.obj, shell_snap(e.obj)))
+        return out
+
+    def _check_bystanders(self, before, what):
+        from .canon import shell_snap
+
+        for sh, sn in before:
+            now = shell_snap(sh)
+            if now != sn:
+                raise Violation(["C19"], "O1-pool", "assign_norm_cont",
+                                f"{what} changed a shell that was not being renormalised: {_short(sn, 300)} -> "
+                                f"{_short(now, 300)}")
+
     def _faulted_update(self, bound, op, zr, entry):
         """Parameter update whose renormalisation is aborted / runs under hostile ambient state.
 
@@ -491,6 +540,7 @@ class Run:
             return entry
         touched = bound.touched
         before = [params(sh) for sh in touched]
+        bystanders = self._bystanders(touched)
         env, fault = op.get("env"), op.get("fault")
         r = _B()
         r.call = bound.renorm
@@ -531,6 +581,7 @@ class Run:
         # undisturbed renormalisation: must agree with the history-free world and be unit-normalised
         o, value, ch, _ = self._call(r, None)
         check("renormalisation", o, ch)
+        self._check_bystanders(bystanders, "renormalisation")
         self._o2(bound, o, zr, "renormalisation after an aborted one")
         if o[0] == "ok":
             self._o4(touched, bound.label)
